@@ -690,6 +690,12 @@ func init() {
 		st.pc = st.pc.and(And(ILe(g, v), ILe(v, g)))
 		return g
 	}
+	V["SkipRun"] = func(c *Ctx, st *State, a []Value, site ssa.Instruction) Value {
+		// a redundant combination of case-split parameters: nothing to check in this run
+		c.skipRun = true
+		st.pc = st.pc.and(FalseT)
+		return nil
+	}
 	V["SharedRO"] = func(c *Ctx, st *State, a []Value, site ssa.Instruction) Value {
 		if st.shared == nil {
 			fail("verif.SharedRO needs sharedro=1 on the obligation")
@@ -756,10 +762,18 @@ func setPathG(v Value, path []PathElem, nv Value) Value {
 		r.F[e.Idx] = setPathG(x.F[e.Idx], path[1:], nv)
 		return r
 	case *ArrayV:
-		if e.Sym != nil {
-			fail("ghost attribute through symbolic index")
-		}
 		r := &ArrayV{E: append([]Value(nil), x.E...)}
+		if e.Sym != nil {
+			// every candidate element becomes "the new value if the index selects it, else what it was"
+			for i := e.Idx; i < e.Idx+e.N; i++ {
+				m, ok := mergeVal(Eq(e.Sym, BVI(int64(i), 64)), setPathG(x.E[i], path[1:], nv), x.E[i])
+				if !ok {
+					fail("ghost attribute through symbolic index: unmergeable element")
+				}
+				r.E[i] = m
+			}
+			return r
+		}
 		r.E[e.Idx] = setPathG(x.E[e.Idx], path[1:], nv)
 		return r
 	}
